@@ -38,7 +38,7 @@ if r.returncode != 0:
     sys.exit(3)
 try:
     for p in props:
-        r = subprocess.run(["/verif/check", p, "--tier", tier], capture_output=True, text=True, env=env)
+        r = subprocess.run([os.environ.get("VX_CHECK", "/verif/check"), p, "--tier", tier], capture_output=True, text=True, env=env)
         first = next((l for l in r.stdout.splitlines() if l.startswith("VIOLATION")), "")
         detail = next((l.strip() for l in r.stderr.splitlines() if l.startswith("    ")), "")
         print("%s %s -> exit %d %s | %s" % (os.path.basename(os.path.dirname(patch)) + "/" + os.path.basename(patch), p, r.returncode, first[:120], detail[:200]))
